@@ -84,6 +84,15 @@ package perio
 // producers (Gtp5g.CreateURR / RemoveURR on the event loop, the ticker goroutines) reach it through evtCh only.
 //@ confined serves C17 root perio.Server.Serve init perio.OpenServer = perio.Server.perioList perio.PERIOGroup.urrids perio.PERIOGroup.period perio.PERIOGroup.ticker
 
+// Start-up (C20): the periodic-report server handed to the forwarder is fully built - an open event channel and an empty
+// registration table - before its goroutine is started.
+//@ func OpenServer(wg *sync.WaitGroup) (s *Server, err error)
+//@   locals s:*perio.Server
+//@   requires wg != nil
+//@   ensures [ok] err == nil && s != nil && fresh(s) && s.evtCh != nil && s.perioList != nil
+//@   modifies nothing
+//@   serves C20 C15 C07
+
 // The asynchronous API (C15, C03): a request is "made" by queuing exactly one event with the given SEID, URR id (and
 // period) for the server's goroutine; the ghost set PERIOREQ of requested registrations changes here and nowhere else.
 //@ func (s *Server) AddPeriodReportTimer(lSeid uint64, urrid uint32, period time.Duration)
